@@ -70,6 +70,13 @@ InterTerm(A) == <<"mul", X, FactorTerm(A)>>
 \* the magnitudes of the property's quantifier: 0, 1, -3, 2.5e-7, 1e30 and an array
 Magnitudes == << Q(0, 1), Q(1, 1), Q(-3, 1), <<"mul", Q(25, 1), P10(-8)>>, P10(30) >>
 ArrayMags  == << Q(1, 1), Q(-3, 1), <<"mul", Q(25, 1), P10(-8)>>, Q(4, 1) >>
+\* "all finite magnitudes including 0": a refusal must not depend on the magnitude - zero, negative zero and an
+\* all-zero array are refused like any other value
+ZeroMags   == << Q(0, 1), <<"neg", Q(0, 1)>> >>
+ZeroArray  == << Q(0, 1), <<"neg", Q(0, 1)>>, Q(0, 1) >>
+\* magnitude kinds of the library (float, Decimal, array): a conversion keeps the kind, and its result does not
+\* depend on which kinds were converted to the same target before
+MagKinds   == <<"float", "decimal", "array">>
 
 (* ------------------------------------------------------------ MACHINE    *)
 MRule(A, B) ==
